@@ -477,6 +477,42 @@ func ruleC16Cross(p *Prog, a *Anchors, r *Report) {
 							key += "#" + itoa(int64(count[key]))
 						}
 						r.Bad(key, p.InstrPos(in), "the error returned by %s — which names the template that was loaded or executed there — is given a Line/Column of the referring template: the report reads `in <other file> | Line/Col of this file`", from)
+						// … and where that is done at all (the fixture-pinned message of a failed static include), it is done
+						// only for the failure to load the very file the tag names: Sender == "fromfile" and Filename == the
+						// requested name on every path to the store. Any other position-less compile error of the included
+						// template (a nesting-depth error, its own missing parent) names another source still.
+						lkey := p.FuncName(f) + ":legacy-position:load-failure-only"
+						sender := Guarded(in, func(cnd ssa.Value, pol bool) bool {
+							bo, ok := cnd.(*ssa.BinOp)
+							if !ok || bo.Op != token.EQL || !pol {
+								return false
+							}
+							sv, isC := constString(bo.Y)
+							return isC && sv == "fromfile" && loadsField(bo.X, "Error", "Sender")
+						})
+						thisFile := Guarded(in, func(cnd ssa.Value, pol bool) bool {
+							bo, ok := cnd.(*ssa.BinOp)
+							if !ok || bo.Op != token.EQL || !pol {
+								return false
+							}
+							return loadsField(bo.X, "Error", "Filename") || loadsField(bo.Y, "Error", "Filename")
+						})
+						cause := Guarded(in, func(cnd ssa.Value, pol bool) bool {
+							bo, ok := cnd.(*ssa.BinOp)
+							if ok && bo.Op == token.EQL && pol {
+								return loadsField(stripConv(bo.X), "Error", "OrigError") || loadsField(stripConv(bo.Y), "Error", "OrigError")
+							}
+							if c, isC := cnd.(*ssa.Call); isC && pol && c.Common().StaticCallee() != nil && p.extName(c.Common().StaticCallee()) == "errors.Is" {
+								return true
+							}
+							return false
+						})
+						thisFile = thisFile && cause // (the depth error of an include cycle has the same Sender and Filename)
+						if sender && thisFile {
+							r.OK(lkey, p.InstrPos(in), "only the failure to load the named file itself is given the tag's position")
+						} else {
+							r.Bad(lkey, p.InstrPos(in), "the tag's position is put on EVERY position-less error that comes back from loading the included template (Sender==\"fromfile\" on the path: %v, Filename==<requested> and the not-found cause on the path: %v): a nesting-depth error of an include cycle, or the missing parent of an existing included template, is reported with this tag's line and column under the name of a file in which that position means nothing", sender, thisFile)
+						}
 					}
 					continue
 				}
